@@ -1,11 +1,15 @@
 import Srtla.Model.Conn
 import Srtla.Lemmas.Log
+import Srtla.Lemmas.Conn
 /-!
 # C02 — per-link in-flight count equals packets sent and not yet retired
 
 Refinement of the packet log + cumulative-ACK high-water optimisation to a per-link list
 without duplicates ("sent and not yet retired"), for every history of sends, cumulative ACKs,
 SRTLA ACKs, NAKs and resets over any number of links.
+
+`C02_inv_history` is the inductive invariant, `C02_refines` (end of file) the history-level refinement
+to the per-link set machine `specStep`.
 -/
 namespace Srtla.Props.C02
 open Srtla.Conn Srtla.Gen
@@ -310,5 +314,265 @@ example : AllInv [({ connId := 1 } : Conn), { connId := 2 }] := by
   intro c hc
   simp at hc
   rcases hc with rfl | rfl <;> exact ⟨by simp [Conn.keys], by simp [Conn.keys], by simp [Conn.keys]⟩
+
+
+/-! ## History-level refinement to per-link sets (`C02_refines`)
+
+The spec keeps, per link, the duplicate-free list of sequence numbers "sent and not yet retired".
+It never looks at the packet log's time stamps, at `highest_acked`, at the in-flight counter, at the
+window or at any congestion state.  Which link a NAK is charged to is decided by the sequence tracker
+(`Tracker`, shared verbatim with the model: the ring is specified separately by `C05_tracker_spec`)
+and the links' connection ids, so the spec carries those two as well. -/
+
+/-- Abstract state: conn id per link (never changes), key list per link, the sequence tracker. -/
+structure Spec where
+  ids : List Nat
+  keys : List (List Int)
+  trk : Tracker
+
+/-- Apply `g` to the set at index `i` (out of range: unchanged). -/
+def specAt (ks : List (List Int)) (i : Nat) (g : List Int → List Int) : List (List Int) :=
+  ks.mapIdx (fun j k => if j = i then g k else k)
+
+/-- Spec of the fallback scan: erase `s` from the first set that holds it. -/
+def specScan : List (List Int) → Int → List (List Int)
+  | [], _ => []
+  | k :: rest, s => if s ∈ k then specErase k s :: rest else k :: specScan rest s
+
+/-- Spec of an SRTLA ACK arriving on link `idx`: the arrival link if it holds the number, otherwise
+the first other holder; an arrival index that names no link changes nothing. -/
+def specSrtlaAck (ks : List (List Int)) (idx : Nat) (s : Int) : List (List Int) :=
+  match ks[idx]? with
+  | none => ks
+  | some k => if s ∈ k then specEraseAt ks idx s else specOthers ks 0 idx s
+
+/-- Spec of a NAK: the charged link is the remembered carrier if the tracker still remembers one that
+is present (erasing is the identity if it no longer holds the number — no fall-through), otherwise
+the first holder. -/
+def specNak (sp : Spec) (n now : Nat) : List (List Int) :=
+  match sp.trk.get n now with
+  | some cid =>
+    match sp.ids.findIdx? (· == cid) with
+    | some pos => specEraseAt sp.keys pos (toI32 n)
+    | none => specScan sp.keys (toI32 n)
+  | none => specScan sp.keys (toI32 n)
+
+/-- The spec machine: send inserts (once); a cumulative ACK removes everything at or below it on
+EVERY link; an SRTLA ACK / NAK removes the number from one link; a reset empties the link. -/
+def specStep (sp : Spec) : Ev → Spec
+  | .send i seq _ => { sp with keys := specAt sp.keys i (fun k => specRegister k (toI32 seq)) }
+  | .track seq cid ts => { sp with trk := sp.trk.insert seq cid ts }
+  | .cumAck a _ => { sp with keys := sp.keys.map (fun k => specCumAck k (toI32 a)) }
+  | .srtlaAck idx seq _ _ => { sp with keys := specSrtlaAck sp.keys idx (toI32 seq) }
+  | .nak n now => { sp with keys := specNak sp n now }
+  | .reset i _ _ => { sp with keys := specAt sp.keys i (fun _ => []) }
+
+/-- Abstraction map. -/
+def absOf (s : St) : Spec := { ids := s.links.map (·.connId), keys := keysOf s.links, trk := s.trk }
+
+/-! ### Conn ids never change (lemmas in `Lemmas/Conn.lean`: `idsOf_*`) -/
+
+/-- **Conn ids are constant along every history** (what lets the spec carry them as a constant). -/
+theorem C02_ids_constant (s : St) (e : Ev) : idsOf (step s e).links = idsOf s.links := by
+  cases e with
+  | send i seq t => exact idsOf_updateAt _ _ _ (fun c _ => connId_register c _ t)
+  | track seq cid ts => rfl
+  | cumAck a now => exact idsOf_map _ _ (fun c => connId_srtAck c _ now)
+  | srtlaAck idx seq cl now => exact idsOf_evSrtlaAck _ _ _ _ _
+  | nak n now => exact idsOf_attributeNak _ _ _ _
+  | reset i k now =>
+    exact idsOf_updateAt _ _ _ (fun c _ => by cases k <;> rfl)
+
+/-! ### Key lists follow the spec, event by event -/
+
+theorem keysOf_updateAt (ls : Links) (i : Nat) (f : Conn → Conn) (g : List Int → List Int)
+    (hf : ∀ c, ls[i]? = some c → (f c).keys = g c.keys) :
+    keysOf (updateAt ls i f) = specAt (keysOf ls) i g := by
+  apply List.ext_getElem?
+  intro j
+  simp only [keysOf, updateAt, specAt, List.getElem?_map, List.getElem?_mapIdx]
+  cases hj : ls[j]? with
+  | none => rfl
+  | some c =>
+    simp only [Option.map_some]
+    split
+    · rename_i h; subst h; rw [hf c hj]
+    · rfl
+
+theorem specEraseAt_eq (ks : List (List Int)) (i : Nat) (s : Int) :
+    specEraseAt ks i s = specAt ks i (fun k => specErase k s) := rfl
+
+theorem keysOf_nakScan (ls : Links) (s : Int) (now : Nat) :
+    keysOf (nakScan ls s now).1 = specScan (keysOf ls) s := by
+  induction ls with
+  | nil => rfl
+  | cons c rest ih =>
+    unfold nakScan
+    dsimp only
+    simp only [keysOf, List.map_cons, specScan] at ih ⊢
+    by_cases hm : s ∈ c.keys
+    · rw [if_pos ((nak_snd_iff c s now).mpr hm), if_pos hm]
+      simp only [List.map_cons, nak_keys]
+    · have : ¬ ((c.nak s now).2 = true) := fun h => hm ((nak_snd_iff c s now).mp h)
+      rw [if_neg this, if_neg hm]
+      simp only [List.map_cons, ih]
+
+theorem keysOf_attributeNak (ls : Links) (trk : Tracker) (n now : Nat) :
+    keysOf (attributeNak ls trk n now).1 =
+      specNak { ids := idsOf ls, keys := keysOf ls, trk := trk } n now := by
+  unfold attributeNak specNak
+  dsimp only
+  cases hg : trk.get n now with
+  | none => exact keysOf_nakScan ls _ now
+  | some cid =>
+    dsimp only
+    rw [findIdx_ids]
+    cases hp : ls.findIdx? (·.connId == cid) with
+    | none => exact keysOf_nakScan ls _ now
+    | some pos =>
+      dsimp only
+      cases hc : ls[pos]? with
+      | none =>
+        -- unreachable (findIdx? returns an index in range); both sides are the identity anyway
+        dsimp only
+        rw [specEraseAt_eq]
+        apply List.ext_getElem?
+        intro j
+        simp only [keysOf, specAt, List.getElem?_map, List.getElem?_mapIdx]
+        cases hj : ls[j]? with
+        | none => rfl
+        | some d =>
+          simp only [Option.map_some]
+          split
+          · rename_i h; subst h; rw [hc] at hj; cases hj
+          · rfl
+      | some c =>
+        dsimp only
+        by_cases hm : toI32 n ∈ c.keys
+        · rw [if_pos ((nak_snd_iff c _ now).mpr hm), specEraseAt_eq]
+          exact keysOf_updateAt ls pos _ _ (fun d hd => by
+            rw [hc] at hd; cases hd; exact nak_keys _ _ _)
+        · have hnf : ¬ ((c.nak (toI32 n) now).2 = true) := fun h => hm ((nak_snd_iff c _ now).mp h)
+          rw [if_neg hnf, specEraseAt_eq]
+          -- erasing a number that is not held is the identity
+          apply List.ext_getElem?
+          intro j
+          simp only [keysOf, specAt, List.getElem?_map, List.getElem?_mapIdx]
+          cases hj : ls[j]? with
+          | none => rfl
+          | some d =>
+            simp only [Option.map_some]
+            split
+            · rename_i h; subst h
+              rw [hc] at hj; cases hj
+              have := nak_keys c (toI32 n) now
+              rw [nak_fst_of_not_mem c _ now hm] at this
+              rw [← this]
+            · rfl
+
+theorem keysOf_evSrtlaAck (ls : Links) (idx : Nat) (s : Int) (cl : Bool) (now : Nat) :
+    keysOf (evSrtlaAck ls idx s cl now) = specSrtlaAck (keysOf ls) idx s := by
+  unfold specSrtlaAck
+  cases hc : ls[idx]? with
+  | none =>
+    have : (keysOf ls)[idx]? = none := by simp [keysOf, hc]
+    rw [this]
+    simp only [evSrtlaAck, hc, keysOf_ackGlobal]
+  | some c =>
+    have : (keysOf ls)[idx]? = some c.keys := by simp [keysOf, hc]
+    rw [this]
+    dsimp only
+    by_cases hs : s ∈ c.keys
+    · rw [if_pos hs]; exact C02_srtla_ack_arrival_first ls idx c s cl now hc hs
+    · rw [if_neg hs]; exact C02_srtla_ack_first_other_holder ls idx c s cl now hc hs
+
+/-- **One event**: the abstraction of the model's successor state is the spec's successor of the
+abstraction. -/
+theorem C02_refines_step (s : St) (e : Ev) (h : AllInv s.links) :
+    absOf (step s e) = specStep (absOf s) e := by
+  have hid := C02_ids_constant s e
+  unfold idsOf at hid
+  cases e with
+  | send i seq t =>
+    simp only [absOf, specStep, Spec.mk.injEq]
+    exact ⟨hid, keysOf_updateAt _ _ _ _ (fun c _ => register_keys c _ t), rfl⟩
+  | track seq cid ts => rfl
+  | cumAck a now =>
+    simp only [absOf, specStep, Spec.mk.injEq]
+    exact ⟨hid, C02_cumack_all_links _ _ now h, rfl⟩
+  | srtlaAck idx seq cl now =>
+    simp only [absOf, specStep, Spec.mk.injEq]
+    exact ⟨hid, keysOf_evSrtlaAck _ _ _ _ _, rfl⟩
+  | nak n now =>
+    simp only [absOf, specStep, Spec.mk.injEq]
+    exact ⟨hid, keysOf_attributeNak _ _ _ _, rfl⟩
+  | reset i k now =>
+    simp only [absOf, specStep, Spec.mk.injEq]
+    refine ⟨hid, keysOf_updateAt _ _ _ _ (fun c _ => ?_), rfl⟩
+    cases k
+    · exact (reset_inv c now).2.2.2.1
+    · exact (reset_inv c now).2.2.2.2.1
+    · exact (reset_inv c now).2.2.2.2.2
+
+/-- **C02 refinement, every history.**  From any links whose logs satisfy the invariant (fresh links
+do), after EVERY finite list of sends (incl. re-sends at or below the high-water mark and probe
+copies), tracker inserts, cumulative ACKs in any order, SRTLA ACKs, NAKs and resets:
+
+* the model's per-link key lists, conn ids and tracker are exactly the fold of the spec machine over
+  the same events (`send` inserts once; `cumAck a` removes every number `≤ a` on EVERY link; an SRTLA
+  ACK removes the number from the arrival link if it holds it, else from the first other holder; a
+  NAK removes it from the charged link only; `reset` empties the link);
+* on every link the in-flight counter equals the size of that set (hence is never negative) and the
+  set has no duplicates. -/
+theorem C02_refines (s : St) (evs : List Ev) (h : AllInv s.links) (hw : ∀ e ∈ evs, wf e) :
+    absOf (evs.foldl step s) = evs.foldl specStep (absOf s) ∧
+    ∀ c ∈ (evs.foldl step s).links,
+      c.inFlight = c.keys.length ∧ 0 ≤ c.inFlight ∧ c.keys.Nodup := by
+  refine ⟨?_, fun c hc => ?_⟩
+  · induction evs generalizing s with
+    | nil => rfl
+    | cons e rest ih =>
+      simp only [List.foldl_cons]
+      rw [ih (step s e) (C02_inv_history s [e] h (fun e' he' => hw e' (by simp_all)))
+        (fun e' he' => hw e' (List.mem_cons_of_mem _ he')), C02_refines_step s e h]
+  · have hi := C02_inv_history s evs h hw c hc
+    exact ⟨hi.count, (C02_count_nonneg c hi).1, hi.nodup⟩
+
+/-- Per link, read off the refinement: link `j`'s key list is the `j`-th set of the spec fold and its
+in-flight counter is that set's size. -/
+theorem C02_refines_link (s : St) (evs : List Ev) (h : AllInv s.links) (hw : ∀ e ∈ evs, wf e)
+    (j : Nat) (c : Conn) (hc : (evs.foldl step s).links[j]? = some c) :
+    (evs.foldl specStep (absOf s)).keys[j]? = some c.keys ∧
+    (c.inFlight : Int) = c.keys.length := by
+  obtain ⟨h1, h2⟩ := C02_refines s evs h hw
+  refine ⟨?_, (h2 c (List.mem_of_getElem? hc)).1⟩
+  rw [← h1]
+  simp [absOf, keysOf, hc]
+
+/-- A reset leaves the link's set empty, whatever the history before it. -/
+theorem C02_reset_empties (s : St) (i : Nat) (k : ResetKind) (now : Nat) (c : Conn)
+    (hc : (step s (.reset i k now)).links[i]? = some c) : c.keys = [] ∧ c.inFlight = 0 := by
+  simp only [step, updateAt, List.getElem?_mapIdx] at hc
+  cases hi : s.links[i]? with
+  | none => rw [hi] at hc; cases hc
+  | some d =>
+    rw [hi] at hc
+    simp only [Option.map_some, if_true, Option.some.injEq] at hc
+    subst hc
+    cases k <;> exact ⟨rfl, rfl⟩
+
+/-- Non-vacuity of `C02_refines` on a concrete two-link history: 5 and 7 go out on link 0, a probe
+copy of 7 on link 1, the tracker remembers link 0 (id 1) for 7; the SRTLA ACK for 7 arrives on link 1
+(retired THERE, link 0 keeps it); the NAK of 7 is charged to the remembered link 0; a repeat changes
+nothing; 5 is re-sent below the mark after the cumulative ACK 6 and retired by the next ACK. -/
+example :
+    let s0 : St := { links := [({ connId := 1 } : Conn), { connId := 2 }], trk := Tracker.empty }
+    let evs : List Ev := [.send 0 5 10, .send 0 7 11, .send 1 7 12, .track 7 1 11,
+      .srtlaAck 1 7 false 20, .nak 7 30, .nak 7 31, .cumAck 6 40, .send 0 5 41]
+    (evs.foldl specStep (absOf s0)).keys = [[5], []] ∧
+    ((evs ++ [Ev.cumAck 6 50, Ev.cumAck 9 51]).foldl specStep (absOf s0)).keys = [[], []] ∧
+    ((evs.foldl step s0).links.map (·.inFlight)) = [1, 0] ∧
+    (((evs ++ [Ev.cumAck 6 50, Ev.cumAck 9 51]).foldl step s0).links.map (·.inFlight)) = [0, 0] := by
+  decide
 
 end Srtla.Props.C02
